@@ -1,5 +1,6 @@
 (* C17 -- automatic features only add to the user's feature file. *)
-From U2F Require Import Base.Prelude Fea.Insert Fea.InsertProofs.
+From Coq Require Import List.
+From U2F Require Import Base.Prelude Fea.Insert Fea.InsertProofs Fea.GdefTodo Fea.GdefTodoProofs.
 
 (* Every statement of the user's feature file survives, unchanged and in the same order,
    through BaseFeatureWriter._insert -- for every feature file, every list of generated
@@ -15,3 +16,14 @@ Theorem C17_no_overwrite_without_marker : forall f tags t,
   In t (existing_tags f) -> ~ In t (keys (collect_markers f tags)) -> ~ In t (todo f tags).
 Proof. exact no_overwrite_without_marker. Qed.
 Print Assumptions C17_no_overwrite_without_marker.
+
+(* ---- the GDEF writer (Fea/GdefTodo.v): what the user wrote in table GDEF is not generated again ---- *)
+Theorem C17_user_ligature_carets_are_left_alone : forall stmts hc hk,
+  (In GCaretByPos stmts \/ In GCaretByIndex stmts) -> td_carets (gdef_todo_of (Some stmts) hc hk) = false.
+Proof. exact user_carets_are_left_alone. Qed.
+Print Assumptions C17_user_ligature_carets_are_left_alone.
+
+Theorem C17_user_glyph_classes_are_left_alone : forall stmts hc hk,
+  In GClassDef stmts -> td_classes (gdef_todo_of (Some stmts) hc hk) = false.
+Proof. exact user_classes_are_left_alone. Qed.
+Print Assumptions C17_user_glyph_classes_are_left_alone.
